@@ -498,13 +498,13 @@ func runC14Concurrent(r *Run, rng *Rng, hn int) {
 		hit := frng.Intn(4) == 0
 		switch {
 		case hit && c.Kind == OpLockReplace && fault == "lock-fail":
-			return Decision{Apply: false, Err: errInjected}
+			return Decision{Apply: false, Err: rotatingInjectedErr()}
 		case hit && c.Kind == OpLockReplace && fault == "lock-fail-applied":
-			return Decision{Apply: true, Err: errInjected}
+			return Decision{Apply: true, Err: rotatingInjectedErr()}
 		case hit && c.Kind == OpUpload && fault == "upload-fail":
-			return Decision{Apply: false, Err: errInjected}
+			return Decision{Apply: false, Err: rotatingInjectedErr()}
 		case hit && c.Kind == OpUpload && fault == "upload-fail-applied":
-			return Decision{Apply: true, Err: errInjected}
+			return Decision{Apply: true, Err: rotatingInjectedErr()}
 		}
 		return decideOK
 	}
@@ -553,10 +553,10 @@ func runC14Concurrent(r *Run, rng *Rng, hn int) {
 			switch {
 			case c.Kind == OpLockReplace && strings.HasPrefix(fault, "lock-fail"):
 				forced = true
-				return Decision{Apply: fault == "lock-fail-applied", Err: errInjected}
+				return Decision{Apply: fault == "lock-fail-applied", Err: rotatingInjectedErr()}
 			case c.Kind == OpUpload && strings.HasPrefix(fault, "upload-fail"):
 				forced = true
-				return Decision{Apply: fault == "upload-fail-applied", Err: errInjected}
+				return Decision{Apply: fault == "upload-fail-applied", Err: rotatingInjectedErr()}
 			}
 			return decideOK
 		}
